@@ -264,6 +264,8 @@ type Worker struct {
 	replayDir string
 	runlog    *os.File
 	nrep      int
+	cold      bool // reporting the process's cold-start case (one per worker process, outside the unit numbering)
+	coldDone  bool
 }
 
 // Guarded runs a case that may take the whole process down (a fatal runtime
@@ -279,12 +281,28 @@ func (w *Worker) Guarded(c *Case, run func() *Result) *Result {
 	return res
 }
 
+// Cold runs gen's case as the very first thing this worker process does:
+// whatever the code under test builds lazily at first use (tables, caches,
+// registrations) is then first used inside a simulation, by several clients at
+// once. The case is a function of (seed, worker), not of the unit stream.
+func (w *Worker) Cold(t *testing.T, gen func(r *simrt.RNG) *Case) {
+	if w.coldDone {
+		return
+	}
+	w.coldDone = true
+	r := simrt.NewRNG(w.Stats.Seed*1000003 + uint64(w.Stats.Worker) + 17)
+	c := gen(r)
+	w.cold = true
+	w.Report(c, w.Prop.Run(t, c, RunOpts{}))
+	w.cold = false
+}
+
 // Report accounts for one executed case and handles a violation: minimise,
 // write the replay file, remember the signature.
 func (w *Worker) Report(c *Case, res *Result) {
 	st := w.Stats
 	st.Runs++
-	if w.runlog != nil {
+	if w.runlog != nil && !w.cold {
 		w.nrep++
 		fmt.Fprintf(w.runlog, "%d.%d:%s:%s\n", w.unit, w.nrep, res.Hash, res.Sig())
 	}
